@@ -607,6 +607,12 @@ class ForestRuleExtractor:
                     except StrategyDoesNotApply:
                         continue
                 else:
+                    # A factory may yield a rule whose children are only computed
+                    # on demand; like the searcher, skip it if it does not apply.
+                    try:
+                        x.children  # pylint: disable=pointless-statement
+                    except StrategyDoesNotApply:
+                        continue
                     yield x
 
 
